@@ -5,8 +5,8 @@ tier=${1:-quick}; shift
 ids=${*:-C01 C02 C03 C04 C05 C06 C07 C08 C09 C10 C11 C12 C13 C14 C15 C16 C17 C18 C19 C20}
 for p in $ids; do
   start=$(date +%s)
-  ./vcheck $p --tier $tier > /tmp/runall_$p.log 2>&1; rc=$?
+  timeout ${RUNALL_CAP:-3000} ./vcheck $p --tier $tier > /tmp/runall_${tier}_$p.log 2>&1; rc=$?
   end=$(date +%s)
-  echo "$p rc=$rc $((end-start))s $(grep -E "^$p tier" /tmp/runall_$p.log)"
-  grep -E "inconclusive|harness_error|VIOLATION" /tmp/runall_$p.log | head -4
+  echo "$p rc=$rc $((end-start))s $(grep -E "^$p tier" /tmp/runall_${tier}_$p.log)"
+  grep -E "inconclusive|harness_error|VIOLATION" /tmp/runall_${tier}_$p.log | head -4
 done
